@@ -294,17 +294,29 @@ def observe_state(m, nvars, names=None):
     }
 
 
+def label_counts(case):
+    """how many periods carry the label of each position (1 everywhere for spans without repeated labels)"""
+    n = case['n']
+    span = make_span(case['span_type'], n)
+    ids = span_ids(span, n)
+    return [ids.count(ids[i]) for i in range(n)]
+
+
 def expected_range(case):
     """What the property says start/end denote, computed from the case alone (never from fsic):
-    ('range', a, b) | ('keyerror',) | ('empty',) | None (outside the statement: repeated labels, span too short for lags/leads)."""
+    ('range', a, b) | ('keyerror',) | ('empty',) | None (outside the statement: a label carried by several periods of a list /
+    tuple span — the lookup .index silently takes the first one —, a span too short for the lags / leads).
+    A label carried by several periods of a NumPy / pandas span does not resolve to a single position: KeyError."""
     n = case['n']
-    if case['span_type'] not in SPAN_NODUP:
-        return None
+    cnt = label_counts(case) if case['span_type'] not in SPAN_NODUP else [1] * n
+    kind = SPAN_KIND[case['span_type']]
 
     def one(spec, dflt):
         if spec is None:
             return dflt if 0 <= dflt < n else None
         if spec[0] in ('pos', 'str'):
+            if cnt[spec[1]] >= 2:
+                return 'bad' if kind in (1, 3) else None
             return spec[1]
         return 'bad'
     if n == 0:
